@@ -148,6 +148,12 @@ Definition cheap_resize (n : nat) : cheap :=
 Definition cheap_reserve (n : nat) : cheap :=
   {| c_val := []; c_pos := []; c_size := 0; c_cap := n |}.
 
+(** Storage invariant of the heap built by [resize(n)]: both vectors have SIZE n, the logical size is at
+    most n, and every stored entry (live or stale) is itself a valid index. *)
+Definition hinv (n : nat) (h : cheap) : Prop :=
+  length (c_val h) = n /\ length (c_pos h) = n /\ c_size h <= n /\
+  Forall (fun v => v < n) (c_val h) /\ Forall (fun p => p < n) (c_pos h).
+
 Definition cparent (i : nat) : Z := ((Z.of_nat i - 1) / 2)%Z.     (* (i - 1) // 2, floor: parent 0 = -1 *)
 Definition cleft (i : nat) : nat := 2 * i + 1.
 Definition cright (i : nat) : nat := 2 * i + 2.
@@ -472,3 +478,112 @@ Definition propagation_fit (fuel : nat) (n_iter : option nat) (indptr indices : 
            (index_remain : list nat) (labels0 : list Z) : kres (list Z * nat) :=
   prop_loop fuel n_iter (sweep indptr indices data index_remain) index_remain 0
             (map (fun _ => 0%Z) index_remain) labels0.
+
+(** * 7. clustering/louvain_core.pyx: optimize_core
+
+    Caller's contract (Louvain._optimize): [labels = arange(n)], the six weight arrays and [self_loops]
+    have n entries, [cluster_weights] is zero-filled. Labels are node indices, hence [nat].
+    [label_set] is a std::set (increasing list, [set_insert] of Model/Vote.v). *)
+Record lstate := { l_labels : list nat; l_ocw : list Q; l_icw : list Q; l_cw : list Q; l_inc : Q }.
+
+(** [for j in range(start, end)]: neighbouring clusters *)
+Fixpoint lv_gather (js : list nat) (indices : list nat) (data : list Q) (labels : list nat)
+         (lset : list nat) (cw : list Q) : kres (list nat * list Q) :=
+  match js with
+  | [] => KOk (lset, cw)
+  | j :: t =>
+      do jj <- rd indices j ;;
+      do lt <- rd labels jj ;;
+      do c <- rd cw lt ;;
+      do d <- rd data j ;;
+      do cw' <- wr cw lt (c + d)%Q ;;
+      lv_gather t indices data labels (set_insert lt lset) cw'
+  end.
+
+(** [for label_target in label_set] *)
+Fixpoint lv_select (ls : list nat) (res ow iw delta : Q) (icw ocw cw : list Q) (dbest : Q) (lbest : nat)
+  : kres (Q * nat * list Q) :=
+  match ls with
+  | [] => KOk (dbest, lbest, cw)
+  | lt :: t =>
+      do c <- rd cw lt ;;
+      do ic <- rd icw lt ;;
+      do oc <- rd ocw lt ;;
+      let dl := (2 * c - res * ow * ic - res * iw * oc - delta)%Q in
+      do cw' <- wr cw lt 0%Q ;;
+      if Qlt_le_dec dbest dl then lv_select t res ow iw delta icw ocw cw' dl lt
+      else lv_select t res ow iw delta icw ocw cw' dbest lbest
+  end.
+
+Definition lv_node (indptr indices : list nat) (data out_weights in_weights self_loops : list Q) (res : Q)
+           (i : nat) (st : lstate) : kres lstate :=
+  do label <- rd (l_labels st) i ;;
+  do start <- rd indptr i ;;
+  do end_ <- rd indptr (S i) ;;
+  do g <- lv_gather (seq start (end_ - start)) indices data (l_labels st) [] (l_cw st) ;;
+  let lset := remove Nat.eq_dec label (fst g) in
+  let cw1 := snd g in
+  do st1 <- (match lset with
+             | [] => KOk {| l_labels := l_labels st; l_ocw := l_ocw st; l_icw := l_icw st;
+                            l_cw := cw1; l_inc := l_inc st |}
+             | _ :: _ =>
+                 do ow <- rd out_weights i ;;
+                 do iw <- rd in_weights i ;;
+                 do cl <- rd cw1 label ;;
+                 do sl <- rd self_loops i ;;
+                 do icl <- rd (l_icw st) label ;;
+                 do ocl <- rd (l_ocw st) label ;;
+                 let delta := (2 * (cl - sl) - res * ow * (icl - iw) - res * iw * (ocl - ow))%Q in
+                 do sel <- lv_select lset res ow iw delta (l_icw st) (l_ocw st) cw1 0%Q label ;;
+                 let dbest := fst (fst sel) in
+                 let lbest := snd (fst sel) in
+                 let cw2 := snd sel in
+                 if negb (lbest =? label) then
+                   do labels' <- wr (l_labels st) i lbest ;;
+                   do o1 <- rd (l_ocw st) label ;;
+                   do ocw1 <- wr (l_ocw st) label (o1 - ow)%Q ;;
+                   do i1 <- rd (l_icw st) label ;;
+                   do icw1 <- wr (l_icw st) label (i1 - iw)%Q ;;
+                   do o2 <- rd ocw1 lbest ;;
+                   do ocw2 <- wr ocw1 lbest (o2 + ow)%Q ;;
+                   do i2 <- rd icw1 lbest ;;
+                   do icw2 <- wr icw1 lbest (i2 + iw)%Q ;;
+                   KOk {| l_labels := labels'; l_ocw := ocw2; l_icw := icw2; l_cw := cw2;
+                          l_inc := (l_inc st + dbest)%Q |}
+                 else KOk {| l_labels := l_labels st; l_ocw := l_ocw st; l_icw := l_icw st;
+                             l_cw := cw2; l_inc := l_inc st |}
+             end) ;;
+  do cw' <- wr (l_cw st1) label 0%Q ;;
+  KOk {| l_labels := l_labels st1; l_ocw := l_ocw st1; l_icw := l_icw st1; l_cw := cw';
+         l_inc := l_inc st1 |}.
+
+Fixpoint lv_pass (nodes : list nat) (indptr indices : list nat)
+         (data out_weights in_weights self_loops : list Q) (res : Q) (st : lstate) : kres lstate :=
+  match nodes with
+  | [] => KOk st
+  | i :: t => do st' <- lv_node indptr indices data out_weights in_weights self_loops res i st ;;
+              lv_pass t indptr indices data out_weights in_weights self_loops res st'
+  end.
+
+(** [while not stop]: one unit of fuel per pass; the result carries labels, increase and the number of passes *)
+Fixpoint lv_loop (fuel : nat) (n : nat) (indptr indices : list nat)
+         (data out_weights in_weights self_loops : list Q) (res tol : Q) (st : lstate) (increase : Q)
+         (passes : nat) : kres (list nat * Q * nat) :=
+  match fuel with
+  | O => OutOfFuel
+  | S f =>
+      do st' <- lv_pass (seq 0 n) indptr indices data out_weights in_weights self_loops res
+                        {| l_labels := l_labels st; l_ocw := l_ocw st; l_icw := l_icw st;
+                           l_cw := l_cw st; l_inc := 0%Q |} ;;
+      let increase' := (increase + l_inc st')%Q in
+      if Qlt_le_dec tol (l_inc st') then
+        lv_loop f n indptr indices data out_weights in_weights self_loops res tol st' increase' (S passes)
+      else KOk (l_labels st', increase', S passes)
+  end.
+
+Definition optimize_core (fuel : nat) (labels indices indptr : list nat)
+           (data out_weights in_weights out_cluster_weights in_cluster_weights cluster_weights self_loops : list Q)
+           (res tol : Q) : kres (list nat * Q * nat) :=
+  lv_loop fuel (length labels) indptr indices data out_weights in_weights self_loops res tol
+          {| l_labels := labels; l_ocw := out_cluster_weights; l_icw := in_cluster_weights;
+             l_cw := cluster_weights; l_inc := 0%Q |} 0%Q 0.
